@@ -11,6 +11,7 @@
     This file contains only statements (closed by [exact]), their pins and
     their assumptions, and computed examples. *)
 From RepeV Require Import Model.Beve Proofs.MessageProofs Proofs.BeveProofs.
+From RepeV Require Import Gen.Tables Proofs.TablesC01 Proofs.TablesMisc.
 
 (** the compressed SIZE codec loses nothing below 2^62 *)
 Theorem C08_size_roundtrip : forall n rest,
@@ -306,3 +307,11 @@ Print Assumptions C08_other_forms_rejected.
 Print Assumptions C08_wrong_format_rejected.
 Print Assumptions C08_live_calls.
 Print Assumptions C08_holds.
+
+(** constants of the model are the ones re-read from the Rust source on this run *)
+Theorem C08_source_tables :
+  agrees src_ALIGNED_MARKER Beve.ALIGNED_MARKER.
+Proof. exact c08_marker_agree. Qed.
+Check C08_source_tables :
+  agrees src_ALIGNED_MARKER Beve.ALIGNED_MARKER.
+Print Assumptions C08_source_tables.
